@@ -332,8 +332,8 @@ var supporting = map[string]struct {
 		"'a forced run does not damage the cache' is C01 after a forced run: the digest a forced run records must be the one of the inputs its commands ran on (CP1, CP3L), computed over all inputs, globs expanded (CP6, GL4), and the persisted file must be exactly that map (CP12)."},
 	"C19": {[]func(*Ctx) *rule{ruleAB1, ruleAB2, ruleFD4, ruleGR5, ruleEN4, ruleEN3},
 		"'its cache directory next to the spokfile' is the project root handed to file.New (AB1, AB2, FD4); '--fmt rewrites only when the spokfile loads' needs file.New to fail on what does not load (GR5 duplicate tasks, EN4 failing builtins, EN3 every command goes through the template, whose errors are load errors)."},
-	"C20": {[]func(*Ctx) *rule{ruleGR8, ruleEN3, ruleTK4},
-		"'a single JSON document' needs one SpokFile.Run per invocation (GR8); 'its interpolated text' is the text/template expansion of each command, one entry per command (EN3, TK4)."},
+	"C20": {[]func(*Ctx) *rule{ruleGR8, ruleEN3, ruleTK4, ruleEN5, ruleEN4},
+		"'a single JSON document' needs one SpokFile.Run per invocation (GR8); 'its interpolated text' is the text/template expansion of each command, one entry per command (EN3, TK4); '--vars lists every variable with its evaluated value' is the value file.New computed for that very assignment (EN4) by the builtin's own evaluation (EN5)."},
 }
 
 func join(ss []string) string { return strings.Join(ss, ", ") }
